@@ -307,17 +307,33 @@ class C17Check(ExplainerCheck):
             # the same plan without the injected faults.  If that runs past this point, the crash is a consequence of the
             # earlier failure ("after catching the error and continuing the stream ..." is impossible): a C17 violation.
             at = res.get("aborted_at", 0)
-            control = copy.deepcopy(plan)
-            for op in control["ops"]:
+            # control (a): the faulted operations run without their fault; control (b): they do not happen at all (a
+            # storage that raised was legitimately not updated, so a later natural empty-storage error is not a
+            # consequence of broken atomicity).  Only if BOTH controls get past this operation is the crash blamed on
+            # what the failed call left behind in the explainer.
+            control_a = copy.deepcopy(plan)
+            for op in control_a["ops"]:
                 op.pop("fault", None)
-            cres = run_plan(control, lambda world, p: [])
-            cres.pop("world", None)
-            if not cres.get("aborted") or cres.get("aborted_at", -1) > at:
+            control_b = copy.deepcopy(plan)
+            fired_ops = set(res.get("fired_ops", []))
+            removed_before = sum(1 for j in fired_ops if j < at)
+            control_b["ops"] = [op for j, op in enumerate(control_b["ops"]) if j not in fired_ops]
+            for op in control_b["ops"]:
+                op.pop("fault", None)
+            passed = True
+            for control, at_c in ((control_a, at), (control_b, at - removed_before)):
+                cres = run_plan(control, lambda world, p: [])
+                cres.pop("world", None)
+                if cres.get("aborted") and cres.get("aborted_at", -1) <= at_c:
+                    passed = False
+                    break
+            if passed:
                 op = plan["ops"][at]
                 res["ok"] = False
                 res["violation"] = {"property": "C17", "oracle": "resumed-stream-raised", "op_index": at,
                                     "detail": "after an earlier failed call, fault-free operation %d (%s) raised %s; the same "
-                                              "schedule without the injected fault runs through" % (at, op.get("op"), res["aborted"]),
+                                              "schedule runs through both without the injected fault and without the failed "
+                                              "call" % (at, op.get("op"), res["aborted"]),
                                     "cls": plan["config"]["explainers"][op["e"]]["cls"] if "e" in op else None}
                 res["aborted"] = None
         return res
